@@ -218,6 +218,18 @@ def slow_echo(x, delay=0.1, size=0, marker=None):
                     _t.sleep(0.002)
             except BaseException:  # noqa
                 pass
+    if x == 'SLOWUNWIND':
+        # cooperative, but its clean-up takes a while (well within the default grace period of terminate())
+        try:
+            while True:
+                _t.sleep(0.002)
+        finally:
+            end = _t.monotonic() + 0.6
+            while _t.monotonic() < end:
+                try:
+                    _t.sleep(0.002)
+                except BaseException:  # noqa  (a repeated request does not shorten the clean-up)
+                    pass
     _t.sleep(delay)
     if size:
         return [x, 'p' * size]
